@@ -398,6 +398,9 @@ func (fv *FnVerifier) execUnOp(x *ssa.UnOp, st *State) {
 			s := fv.loadAddr(st, v.Addr)
 			r := Val{T: x.Type(), S: fv.q.bind(x.Name(), fv.sortOf(x.Type()), s)}
 			fv.q.assume(fv.wf(r.S, x.Type(), st))
+			if v.Addr.Glob && len(v.Addr.Path) == 0 && types.Identical(x.Type(), types.Universe.Lookup("error").Type()) {
+				fv.sentinelError(st, v.Addr.Arr)
+			}
 			fv.env[x] = r
 			return
 		}
